@@ -30,7 +30,7 @@ func TestF65(t *testing.T) {
 	}
 	m, err := wgsl.Lower(ast)
 	if err != nil {
-		t.Skip("rejected: ", err)
+		t.Fatalf("valid program rejected (v is a scalar after the fold, so v.x fails): %v", err)
 	}
 	o := msl.DefaultOptions()
 	o.FakeMissingBindings = true
